@@ -366,6 +366,24 @@ func runRPC(d *Defs, svcKey, methodKey, payload string) string {
 	case <-handlerDone:
 	case <-time.After(2 * time.Second):
 	}
+	// the handler has returned, but the processor-side middleware unwinds after it (and, for a oneway call over
+	// a real transport, after the client has already returned): wait until every entered layer has exited
+	for deadline := time.Now().Add(2 * time.Second); time.Now().Before(deadline); time.Sleep(200 * time.Microsecond) {
+		trMu.Lock()
+		e, x := 0, 0
+		for _, t := range procTrace {
+			switch t[0] {
+			case 'e':
+				e++
+			case 'x':
+				x++
+			}
+		}
+		trMu.Unlock()
+		if e == x {
+			break
+		}
+	}
 
 	// what the handler saw
 	mu.Lock()
